@@ -29,7 +29,7 @@ LEVEL_NOTE = ("Domain (DESIGN section 7): pick results whose SubConn was created
               "A context that ends while Pick runs (stale picker handing out a not-READY SubConn, or none) is modelled as pick kinds "
               "notready! / nosc! and driven by cancelling the RPC from inside the scripted picker. "
               "Cancellation is exercised for streaming RPCs (the goroutine of newClientStream calls cs.finish).")
-GAP = "foreign SubConn types; non-status picker errors; NewStream failures other than a status error without transparent retry; concurrent picker updates racing with a pick"
+GAP = "a zero-length retry backoff right after a GOAWAY (the retry races with the channel dropping the draining transport; the generator keeps it positive); foreign SubConn types; non-status picker errors; NewStream failures other than a status error without transparent retry; concurrent picker updates racing with a pick"
 ASSUMPTIONS = ["the scripted server writes answers only at quiescent points", "a new picker is published at the next quiescent point after nosc/notready"]
 RULE = ("s_pickdone: the C18 generator's policies/server scripts/app op sequences plus `cancel`, combined with a picker script of "
         "ok / oknd / notready / nosc entries (and hang or a status-error drop as the outcome of the first pick) and a script of stream-creation "
